@@ -21,7 +21,7 @@ pub struct Dims {
     pub path: u8,     // 0 ok, 1 %zz, 2 trailing %, 3 above root, 4 relative '*'
     pub query: u8,    // 0 ok, 1 %zz, 2 trailing %
     pub carrier: u8,  // 0 one, 1 none, 2 both, 3 both (the other carrier present but not SigV4)
-    pub alg: u8,      // 0 ok, 1 other
+    pub alg: u8,      // 0 ok, 1 other, 2 the right name in lower case, 3 the right name with a suffix
     pub syntax: u8,   // 0 ok, 1 token without '=' (header carrier only)
     pub missing: u8,  // bit 0 credential, 1 signature, 2 signed headers, 3 date
     pub reqs: u8,     // 0 ok, 1 host unsigned, 2 always-header unsigned, 3 if-header unsigned, 4 prefix header unsigned
@@ -168,7 +168,12 @@ pub fn materialize(d: &Dims) -> Option<Case> {
             if d.syntax == 1 {
                 ps.insert(ps.len().min(1), "BareToken".to_string());
             }
-            let alg = if d.alg == 1 { "AWS3-HMAC-SHA256" } else { "AWS4-HMAC-SHA256" };
+            let alg = match d.alg {
+                1 => "AWS3-HMAC-SHA256",
+                2 => "aws4-hmac-sha256",
+                3 => "AWS4-HMAC-SHA256-PAYLOAD",
+                _ => "AWS4-HMAC-SHA256",
+            };
             w.headers[ai].1 = format!("{} {}", alg, ps.join(", ")).into_bytes();
             if d.missing & 8 != 0 {
                 w.headers.retain(|h| !h.0.eq_ignore_ascii_case("x-amz-date") && !h.0.eq_ignore_ascii_case("date"));
@@ -198,10 +203,10 @@ pub fn materialize(d: &Dims) -> Option<Case> {
             if d.missing & 8 != 0 {
                 ps.retain(|p| !p.starts_with("X-Amz-Date="));
             }
-            if d.alg == 1 {
+            if d.alg != 0 {
                 for p in ps.iter_mut() {
                     if p.starts_with("X-Amz-Algorithm=") {
-                        *p = "X-Amz-Algorithm=AWS4-HMAC-SHA512".to_string();
+                        *p = format!("X-Amz-Algorithm={}", ["", "AWS4-HMAC-SHA512", "aws4-hmac-sha256", "AWS4-HMAC-SHA256%20"][d.alg as usize]);
                     }
                 }
             }
@@ -397,7 +402,7 @@ fn dims_space(thorough: bool, query_carrier: bool) -> Vec<Vec<u8>> {
             if query_carrier { vec![0, 1, 2, 3] } else { full(5) },
             full(3),
             full(4),
-            full(2),
+            full(4),
             if query_carrier { vec![0] } else { full(2) },
             full(16),
             full(5),
@@ -411,7 +416,7 @@ fn dims_space(thorough: bool, query_carrier: bool) -> Vec<Vec<u8>> {
             if query_carrier { vec![0, 1, 3] } else { vec![0, 1, 3, 4] },
             vec![0, 1],
             full(4),
-            full(2),
+            vec![0, 1, 2],
             if query_carrier { vec![0] } else { full(2) },
             vec![0, 1, 2, 4, 8, 15],
             vec![0, 1, 2, 4],
